@@ -23,6 +23,7 @@ void harness(void) {
     H3Index c = in_c = mkcell(RES, "in_c");
     int v = in_v = vp_int("in_v"), d = in_d = vp_int("in_d");
     int pent = spec_is_pentagon(c), nv = pent ? 5 : 6;
+    __CPROVER_assume(d >= 0 && d <= 7);   // values of the Direction enum (out-of-range enum values are not portable C)
     VP_EXCLUDE();
     Direction dd = directionForVertexNum(c, v);
     if (v < 0 || v >= nv) __CPROVER_assert(dd == INVALID_DIGIT, "vertex number out of range -> INVALID_DIGIT");
